@@ -66,8 +66,18 @@ def cases(d):
             f = d.choice(rfs)
             lo, hi = sem.type_range(f)
             r = d.randint(0, 99)
-            if r < 40:
+            nonr = [x for x in cls["fields"] if not x["rand"] and x["kind"] != "enum"]
+            if r < 25:
                 extra.append(["expr", ["bin", d.choice(["<", "<=", ">", ">=", "==", "!="]), ["f", f["name"]], ["lit", d.randint(lo, hi)]]])
+            elif r < 40:
+                # mirrored form: a constant expression on the LEFT of the random field
+                if nonr and d.chance(50):
+                    left = ["bin", d.choice(["+", "-"]), ["f", d.choice(nonr)["name"]], ["lit", d.randint(0, 2)]]
+                elif f["signed"]:
+                    left = ["slit", d.randint(lo, hi), f["w"]]
+                else:
+                    left = ["ulit", d.randint(lo, hi), f["w"]]
+                extra.append(["expr", ["bin", d.choice(["<", "<=", ">", ">=", "=="]), left, ["f", f["name"]]]])
             elif r < 70:
                 items = []
                 for _ in range(d.randint(1, 3)):
@@ -135,15 +145,32 @@ def pred_mixed_sign(case, field=None):
     c = sem.Ctx(types, {})
     hit = []
 
+    def can_be_negative(x):
+        """a signed operand whose value can be negative: negative literal, signed field, or arithmetic over such"""
+        k = x[0]
+        if k in ("lit", "slit", "elit"):
+            return x[1] < 0
+        if k == "f":
+            return types[x[1]]["signed"]
+        if k == "bin":
+            return can_be_negative(x[2]) or can_be_negative(x[3]) or x[1] == "-"
+        return False
+
+    def mixed(a, b):
+        sa, sb = sem.signed(a, c), sem.signed(b, c)
+        if sa == sb:
+            return False
+        return can_be_negative(a if sa else b)
+
     def fn(e):
         if e[0] == "bin" and e[1] in sem.CMP:
-            if sem.signed(e[2], c) != sem.signed(e[3], c):
+            if mixed(e[2], e[3]):
                 hit.append(e)
         elif e[0] == "in":
             for it in e[2]:
                 ops = [it[1], it[2]] if it[0] == "rng" else [it]
                 for o in ops:
-                    if sem.signed(e[1], c) != sem.signed(o, c):
+                    if mixed(e[1], o):
                         hit.append(e)
     _walk_stmts(all_stmts(case), fn)
     if field is not None:
@@ -193,6 +220,65 @@ def shape_of(case, field=None):
     if pred_wrap(case):
         out.append("wrapping-arith")
     return "+".join(out) or "plain"
+
+
+@hyp.composite
+def clean_cases(d):
+    """unsigned-only programs without negative literals or subtraction: nothing of the recorded mixed-sign finding can
+    apply, so every starved value is a violation.  Comparisons are written in both orientations, with constant
+    expressions (sized literals, non-random field + k) on either side."""
+    n = d.randint(1, 3)
+    fs = []
+    for i in range(n):
+        f = {"name": "f%d" % i, "kind": "bit", "w": d.choice([2, 3, 3, 4]), "signed": False, "rand": True}
+        f["init"] = gen.rand_in_type(d, f)
+        fs.append(f)
+    nr = []
+    for i in range(d.randint(0, 2)):
+        f = {"name": "n%d" % i, "kind": "bit", "w": 3, "signed": False, "rand": False}
+        f["init"] = d.randint(0, 5)
+        nr.append(f)
+    while sum(f["w"] for f in fs) > 9:
+        max(fs, key=lambda f: f["w"])["w"] -= 1
+    for f in fs:
+        f["init"] = f["init"] & ((1 << f["w"]) - 1)
+    stmts = []
+    for _ in range(d.randint(1, 4)):
+        f = d.choice(fs)
+        hi = (1 << f["w"]) - 1
+
+        def const():
+            r = d.randint(0, 99)
+            if nr and r < 40:
+                g = d.choice(nr)
+                return ["bin", "+", ["f", g["name"]], ["lit", d.randint(0, 2)]] if d.chance(60) else ["f", g["name"]]
+            if r < 70:
+                return ["ulit", d.randint(0, hi), f["w"]]
+            return ["lit", d.randint(0, hi)]
+        r = d.randint(0, 99)
+        op = d.choice(["<", "<=", ">", ">=", "==", "!="])
+        if r < 35:
+            stmts.append(["expr", ["bin", op, ["f", f["name"]], const()]])
+        elif r < 65:
+            c_ = const()
+            if c_[0] == "lit":
+                c_ = ["ulit", c_[1], f["w"]]       # a Python int cannot be the left operand
+            stmts.append(["expr", ["bin", op, c_, ["f", f["name"]]]])
+        elif r < 85:
+            items = []
+            for _ in range(d.randint(1, 3)):
+                a = d.randint(0, hi)
+                items.append(["rng", ["lit", a], ["lit", d.randint(a, hi)]] if d.chance(60) else ["lit", a])
+            stmts.append(["expr", ["in", ["f", f["name"]], items]])
+        elif len(fs) > 1:
+            g2 = d.choice([x for x in fs if x is not f])
+            stmts.append(["expr", ["bin", d.choice(["<", "<=", ">", ">="]), ["f", f["name"]], ["f", g2["name"]]]])
+    if not stmts:
+        stmts.append(["expr", ["bin", "<=", ["f", fs[0]["name"]], ["lit", 2]]])
+    prog = {"enums": {}, "classes": [{"name": "T", "fields": fs + nr, "blocks": [{"name": "c0", "stmts": stmts}]}]}
+    return {"mode": "enum", "prog": prog, "inline": None, "clean": True,
+            "calls": [{"kind": d.choice(["randomize", "randomize_with", "vsc.randomize"]), "seed": d.seed()} for _ in range(d.randint(1, 3))],
+            "sel": [d.randint(0, 1 << 16) for _ in range(8)], "pseed": d.seed()}
 
 
 def V(kind, detail, case, extra=None):
@@ -324,6 +410,8 @@ def body(case, acc):
     acc.label("fields checked", info.get("checked_fields", 0))
     if info.get("coupon"):
         acc.label("coupon checks")
+    if case.get("clean"):
+        acc.label("unsigned-only family (no tolerance applies)")
     if info.get("no_hook_payload"):
         acc.label("calls without hook payload", info["no_hook_payload"])
     for c in case["calls"]:
@@ -333,11 +421,11 @@ def body(case, acc):
 
 def shards(tier):
     per = 220 if tier == "quick" else 6000
-    return [{"i": i, "n": per} for i in range(16)]
+    return [{"i": i, "n": per} for i in range(12)] + [{"kind": "clean", "i": i, "n": per} for i in range(4)]
 
 
 def run_shard(spec, seed, tier, acc):
-    hyp.drive(cases(), body, seed, spec["n"], acc)
+    hyp.drive(clean_cases() if spec.get("kind") == "clean" else cases(), body, seed, spec["n"], acc)
 
 
 def replay(case):
